@@ -215,4 +215,4 @@ func init() {
 
 func TestBedC02(t *testing.T) { bedBatch(t, "c02.bed", "TestBindings|TestC02") }
 func TestBedC03(t *testing.T) { bedBatch(t, "c03.bed", "TestBindings|TestC03|TestScopes") }
-func TestBedC16(t *testing.T) { bedBatch(t, "c16.bed", "TestBindings|TestC16") }
+func TestBedC16(t *testing.T) { bedBatch(t, "c16.bed", "TestBindings|TestC16|TestScopes") }
